@@ -258,6 +258,8 @@ def run(ctx: Ctx) -> None:
     _memo.rule_memo_sound(ctx, ['graphiq/backends/stabilizer/functions/metric.py', 'graphiq/backends/stabilizer/functions/stabilizer.py', 'graphiq/backends/stabilizer/tableau.py', 'graphiq/backends/stabilizer/clifford_tableau.py'])
     _memo.rule_falsy_zero(ctx, ['graphiq/backends/stabilizer/functions/metric.py', 'graphiq/backends/stabilizer/functions/stabilizer.py', 'graphiq/backends/stabilizer/tableau.py', 'graphiq/backends/stabilizer/clifford_tableau.py'])
     _memo.rule_arg_names(ctx, ['graphiq/backends/stabilizer/functions/metric.py', 'graphiq/backends/stabilizer/functions/stabilizer.py', 'graphiq/backends/stabilizer/tableau.py', 'graphiq/backends/stabilizer/clifford_tableau.py'])
+    _memo.rule_fixed_width(ctx, ['graphiq/backends/stabilizer/functions/metric.py', 'graphiq/backends/stabilizer/functions/stabilizer.py', 'graphiq/backends/stabilizer/tableau.py', 'graphiq/backends/stabilizer/clifford_tableau.py'])
+    _memo.rule_paste_incomplete(ctx, ['graphiq/backends/stabilizer/functions/metric.py', 'graphiq/backends/stabilizer/functions/stabilizer.py', 'graphiq/backends/stabilizer/tableau.py', 'graphiq/backends/stabilizer/clifford_tableau.py'])
     rule_eq_fields(ctx)
     tableau.rule_rowops(ctx)
     tableau.rule_phase_combine(ctx)
